@@ -6,6 +6,8 @@ package main
 
 import (
 	"fmt"
+	cfedistributor "github.com/chain4energy/c4e-chain/x/cfedistributor"
+	cfeminter "github.com/chain4energy/c4e-chain/x/cfeminter"
 	"math/big"
 	"sort"
 	"strings"
@@ -282,6 +284,10 @@ func runParamsCase(ta *TestApp, seed uint64, idx int, rep *Report, profile strin
 		beforeMb, _ := beforeM.Marshal()
 		var term string
 		var err error
+		// some messages run on a branch of the state that is dropped although the message itself succeeded: what a proposal or a
+		// multi-message transaction whose later message fails, or a simulation, leaves behind. For the chain (and the model) such a
+		// message has no effect.
+		discard := rng.Chance(12)
 		exec := func(f func(c sdk.Context) error) {
 			defer func() {
 				if r := recover(); r != nil {
@@ -291,7 +297,7 @@ func runParamsCase(ta *TestApp, seed uint64, idx int, rep *Report, profile strin
 			}()
 			c, write := ctx.CacheContext()
 			err = f(c)
-			if err == nil {
+			if err == nil && !discard {
 				write()
 			}
 		}
@@ -422,6 +428,13 @@ func runParamsCase(ta *TestApp, seed uint64, idx int, rep *Report, profile strin
 			})
 		}
 		ok := err == nil
+		if discard {
+			if ok {
+				rep.Count("discarded_after_success")
+			}
+			ok = false
+			term = strings.Replace(term, " true ", " false ", 1) // the model sees a message without effect
+		}
 		if ok {
 			anyAccepted = true
 		}
@@ -471,6 +484,40 @@ func runParamsCase(ta *TestApp, seed uint64, idx int, rep *Report, profile strin
 		if ok {
 			rep.Count("accepted." + strings.Fields(term)[0])
 		}
+	}
+	// ---- C10: whatever the governance messages left in the stores, begin-block processing of the next blocks completes
+	{
+		bctx, _ := ctx.CacheContext()
+		panicMsg := ""
+		mainAddr := app.AccountKeeper.GetModuleAddress(distrtypes.DistributorMainAccount)
+		app.AccountKeeper.GetModuleAccount(bctx, distrtypes.DistributorMainAccount)
+		for _, m := range distrModules {
+			app.AccountKeeper.GetModuleAccount(bctx, m)
+		}
+		for bk := 0; bk < 3 && panicMsg == ""; bk++ {
+			fundAddr(bctx, ta, mainAddr, sdk.NewCoins(sdk.NewCoin(BondDenom, sdk.NewInt(1000003+rng.I64n(1000000000)))))
+			for _, sd := range app.CfedistributorKeeper.GetParams(bctx).SubDistributors {
+				for _, src := range sd.Sources {
+					if src.Type == distrtypes.ModuleAccount && src.Id != distrtypes.DistributorMainAccount {
+						if a := app.AccountKeeper.GetModuleAddress(src.Id); a != nil {
+							app.AccountKeeper.GetModuleAccount(bctx, src.Id) // create it as a module account before coins arrive at its address
+							fundAddr(bctx, ta, a, sdk.NewCoins(sdk.NewCoin(BondDenom, sdk.NewInt(1+rng.I64n(100000)))))
+						}
+					}
+				}
+			}
+			c2 := bctx.WithBlockTime(t0.Add(time.Duration(bk+1) * 36 * time.Hour)).WithEventManager(sdk.NewEventManager())
+			func() {
+				defer func() {
+					if r := recover(); r != nil {
+						panicMsg = fmt.Sprintf("block %d after the updates: %v", bk+1, r)
+					}
+				}()
+				cfeminter.BeginBlocker(c2, app.CfeminterKeeper)
+				cfedistributor.BeginBlocker(c2, app.CfedistributorKeeper)
+			}()
+		}
+		rep.Eval("C10.blocks_after_parameter_updates_do_not_panic", panicMsg == "", idx, nOps, panicMsg)
 	}
 	rep.NoteCase(strings.Join(ops, ";"), anyAccepted)
 	if len(rep.Samples) < 2 {
